@@ -958,4 +958,19 @@ fn spawn_async_ao_list_in_task'''),
         ('declare-in-function-creates-a-global', 'brush-builtins/src/declare.rs', "            let scope = if create_var_local {\n                EnvironmentScope::Local", "            let scope = if create_var_local && matches!(verb, DeclareVerb::Local) {\n                EnvironmentScope::Local"),
         ('inherited-export-overrides-the-flags', 'brush-builtins/src/declare.rs', "            self.apply_attributes_after_update(&mut var, verb)?;\n\n            let scope = if create_var_local {", "            self.apply_attributes_after_update(&mut var, verb)?;\n            if create_var_local { var.export(); }\n\n            let scope = if create_var_local {"),
     ],
+    'U44': [
+        ('fragments-of-a-quoted-piece-become-patterns', 'brush-core/src/patterns.rs', "                    PatternPiece::Literal(_) => PatternPiece::Literal(s.to_owned()),\n                })\n                .collect();", "                    PatternPiece::Literal(_) => PatternPiece::Pattern(s.to_owned()),\n                })\n                .collect();"),
+        ('first-fragment-always-starts-a-component', 'brush-core/src/patterns.rs', "                if let Some(last_component) = components.last_mut() {\n                    last_component.push(first_piece);\n                } else {\n                    components.push(vec![first_piece]);\n                }", "                components.push(vec![first_piece]);"),
+        ('further-fragments-join-the-last-component', 'brush-core/src/patterns.rs', "            while let Some(piece) = split_result.pop_front() {\n                components.push(vec![piece]);\n            }", "            while let Some(piece) = split_result.pop_front() {\n                if let Some(last_component) = components.last_mut() { last_component.push(piece); }\n            }"),
+        ('last-fragment-dropped', 'brush-core/src/patterns.rs', "            while let Some(piece) = split_result.pop_front() {\n                components.push(vec![piece]);\n            }", "            while let Some(piece) = split_result.pop_front() {\n                if split_result.len() > 0 { components.push(vec![piece]); }\n            }"),
+    ],
+    'U50': [
+        ('every-escape-passed-through', 'brush-parser/src/pattern.rs', "            sequence:$(['\\\\'] [c if regex_char_needs_escaping(c)]) { sequence.to_owned() } /\n            ['\\\\'] [c] { c.to_string() }", "            sequence:$(['\\\\'] [_]) { sequence.to_owned() }"),
+        ('escape-dropped-before-special-characters', 'brush-parser/src/pattern.rs', "            sequence:$(['\\\\'] [c if regex_char_needs_escaping(c)]) { sequence.to_owned() } /\n            ['\\\\'] [c] { c.to_string() }", "            ['\\\\'] [c] { c.to_string() }"),
+        ('escaped-letter-in-brackets-is-a-class-again', 'brush-parser/src/pattern.rs', "            ['\\\\'] [c if c.is_ascii_alphanumeric()] { (c.to_string(), c) } /\n", ""),
+    ],
+    'U41': [
+        ('arithmetic-cache-key-drops-blanks', 'brush-parser/src/arithmetic.rs', 'convert = r#"{ input.to_owned() }"#', 'convert = r#"{ input.split_whitespace().collect::<String>() }"#'),
+        ('word-cache-ignores-the-options', 'brush-parser/src/word.rs', 'key = "(String, ParserOptions)",\n    convert = r#"{ (word.to_owned(), options.to_owned()) }"#', 'key = "String",\n    convert = r#"{ word.to_owned() }"#'),
+    ],
 }
